@@ -388,10 +388,25 @@ def rule_paired(rep: Report, repo: Repo) -> None:
     outs = method_outcomes(repo, ASM, 'BinaryData', 'get_wflip_spot')
     holes = [o for o in outs if 'self.padding_ops_indices' in o.conds]
     fresh = [o for o in outs if 'not self.padding_ops_indices' in o.conds]
-    ok_new = (len(fresh) == 1 and fresh[0].state == {'self.wflip_words': 'self.wflip_words + (0, 0)',
-                                                     'self.next_wflip_address': 'self.next_wflip_address + 2 * self.memory_width'}
-              and fresh[0].effects == ['_v1 := WFlipSpot(self.wflip_words, len(self.wflip_words), self.next_wflip_address)'.replace('_v1', fresh[0].result[1] or '?')]
-              and (fresh[0].result[1] or '').startswith('_v'))
+    def _new_spot_ok(o: Any) -> bool:
+        # the record is built from PRE-state values (index = old length, address = old cursor); its list is the word list object itself,
+        # which `+=` extends in place - written before or after the extension it is the same object
+        if o.state != {'self.wflip_words': 'self.wflip_words + (0, 0)', 'self.next_wflip_address': 'self.next_wflip_address + 2 * self.memory_width'}:
+            return False
+        txt = None
+        if o.result[0] == 'return' and (o.result[1] or '').startswith('_v') and len(o.effects) == 1 and o.effects[0].startswith(o.result[1] + ' := '):
+            txt = o.effects[0].split(' := ', 1)[1]
+        elif o.result[0] == 'return' and not o.effects:
+            txt = o.result[1]
+        try:
+            c = ast.parse(txt or '', mode='eval').body
+        except SyntaxError:
+            return False
+        if not (isinstance(c, ast.Call) and dotted(c.func) == 'WFlipSpot' and len(c.args) == 3 and not c.keywords):
+            return False
+        a0, a1, a2 = (norm(a) for a in c.args)
+        return a0 in ('self.wflip_words', 'self.wflip_words + (0, 0)') and a1 == 'len(self.wflip_words)' and a2 == 'self.next_wflip_address'
+    ok_new = len(fresh) == 1 and _new_spot_ok(fresh[0])
     rep.check(ok_new, 'C02.PAIRED-UPDATE', 'get_wflip_spot:new-spot', f'{[(o.state, o.effects, o.result) for o in fresh]}', f'{ASM}:{sp.lineno}',
               expected='spot = (list, len(list), next address) taken BEFORE two words are appended and the address advances by 2w')
     # the hole path: one pop, and nothing else but building the spot (returned directly or through a local)
